@@ -234,6 +234,16 @@ pub fn run(ctx: &mut Ctx) {
             let (mref, fns) = all_functions::<Zbdd>(n, &order, 1024, tc);
             let mut nn = n;
             for round in 0..2 {
+                // fill the apply cache with operations against the family of all sets over the current variables
+                // (and its complement-like uses); the results are temporaries
+                if nn == n {
+                    let all = mref.with_manager_shared(|m| ZBDDFunction::t(m));
+                    for f in fns.iter() {
+                        let _ = all.diff(f);
+                        let _ = all.intsec(f);
+                        let _ = f.not();
+                    }
+                }
                 mref.with_manager_exclusive(|m| {
                     m.add_vars(1);
                 });
@@ -264,6 +274,20 @@ pub fn run(ctx: &mut Ctx) {
                                 case(nn, &cur, "eval_after_add_vars", &[t, a as Tab], exp as Tab, &g.to_string()),
                                 &format!("zbdd Boolean view of family {t:#x} after add_vars: eval({a:#b}) = {g}, expected {exp}"),
                             );
+                        }
+                    }
+                }
+                // the families "all sets over the variables from level l downwards" (what the manager keeps
+                // internally for the full family) against every old handle
+                if nn <= 4 {
+                    for l in 0..nn {
+                        let vars_below: u32 = (l..nn).map(|lv| 1u32 << cur[lv as usize]).sum();
+                        let xt: Tab = (0..(1u32 << nn)).filter(|s| s & !vars_below == 0).map(|s| 1u64 << s).sum();
+                        let xf = Zbdd::build(&mref, xt).unwrap();
+                        for (t, f) in fns.iter().enumerate() {
+                            let t = t as Tab;
+                            check(ctx, nn, &cur, "diff_all_below", &[xt, t], xt & !t, xf.diff(f), nt(t));
+                            check(ctx, nn, &cur, "intsec_all_below", &[xt, t], xt & t, xf.intsec(f), nt(t));
                         }
                     }
                 }
